@@ -223,6 +223,28 @@ theorem fantasy_likelihood_frame (s : Nat → Frame.Val) :
     funext a
     simp [Frame.upd] <;> grind
 
+/-- The same for `DirichletClassificationLikelihood.get_fantasy_likelihood` (its own override; detaches `noise_covar`). -/
+theorem fantasy_dirichlet_likelihood_frame (s : Nat → Frame.Val) :
+    (Frame.run Gen.FantasyFrame.dirichletFantasyLikelihoodOps (Frame.start s)).self = s ∧
+    (Frame.run Gen.FantasyFrame.dirichletFantasyLikelihoodOps (Frame.start s)).copied =
+      some (fun a => if a ∈ Gen.FantasyFrame.dirichletFantasyLikelihoodDetached then none else s a) := by
+  constructor
+  · funext a
+    simp [Frame.run, Frame.Op.run, Frame.upd, Frame.start, Gen.FantasyFrame.dirichletFantasyLikelihoodOps] <;> grind
+  · simp only [Frame.run, Frame.Op.run, Frame.start, Gen.FantasyFrame.dirichletFantasyLikelihoodOps,
+      Gen.FantasyFrame.dirichletFantasyLikelihoodDetached, List.foldl_cons, List.foldl_nil, Option.some.injEq]
+    funext a
+    simp [Frame.upd] <;> grind
+
+/- Not provable on /repo HEAD 975fbb8 (the Dirichlet override restores `noise_covar` outside a `finally`, so a failing
+`deepcopy` leaves the source likelihood without its noise model — fixes/C04-dirichlet-fantasy-restore-on-error.patch);
+to be enabled, at full strength, once the repair is in /repo:
+
+theorem fantasy_dirichlet_likelihood_frame_exc (s : Nat → Frame.Val) :
+    (Frame.runExc Gen.FantasyFrame.dirichletFantasyLikelihoodOps (Frame.start s)).2.self = s ∧
+    (Frame.runExc Gen.FantasyFrame.dirichletFantasyLikelihoodOps (Frame.start s)).1 = Frame.Mode.raised
+-/
+
 /-- Exceptional path (`deepcopy(self)` raises, as it does for a model holding non-leaf tensors, e.g. a KISS-GP model
 after an eval-mode prediction): the source object still ends with every attribute restored, and the exception
 propagates.  True only because the restores sit in a `finally` block. -/
